@@ -231,6 +231,69 @@ func senParse(s string) (v any, err error) {
 	return (&sen.Parser{}).Parse([]byte(s))
 }
 
+// planDiffPlace walks the Simplify() form of a new plan and of a used one and
+// names the first place where they differ: "literal" inside a map or a list
+// that is not a call, "call" at or directly in a call node, "" when equal.
+func planDiffPlace(a, b any, fns map[string]bool, inLit bool, depth int) string {
+	place := func() string {
+		if inLit {
+			return "literal"
+		}
+		return "call"
+	}
+	if depth > maxDepth {
+		return ""
+	}
+	switch ta := a.(type) {
+	case []any:
+		tb, ok := b.([]any)
+		if !ok {
+			return place()
+		}
+		isCall := false
+		if len(ta) > 0 && !inLit {
+			if name, _ := ta[0].(string); fns[name] {
+				isCall = true
+			}
+		}
+		lit := inLit || !isCall
+		if len(ta) != len(tb) {
+			if lit {
+				return "literal"
+			}
+			return "call"
+		}
+		for i := range ta {
+			if d := planDiffPlace(ta[i], tb[i], fns, lit, depth+1); d != "" {
+				return d
+			}
+		}
+		return ""
+	case map[string]any:
+		tb, ok := b.(map[string]any)
+		if !ok {
+			return place()
+		}
+		if len(ta) != len(tb) {
+			return "literal"
+		}
+		for k, v := range ta {
+			w, has := tb[k]
+			if !has {
+				return "literal"
+			}
+			if d := planDiffPlace(v, w, fns, true, depth+1); d != "" {
+				return d
+			}
+		}
+		return ""
+	}
+	if !eqStrict(a, b, 0) {
+		return place()
+	}
+	return ""
+}
+
 // firstDiff finds the first place where the re-read array differs from the
 // original and names the two kinds.
 func firstDiff(a, b any, depth int) (string, bool) {
@@ -299,6 +362,7 @@ type compiled struct {
 
 	sawRaise bool // Plan.Execute has already returned an error for this plan on some root
 	unstable bool // a second run differed from the first on some root
+	runs     int  // roots this plan has already been run on
 }
 
 func (e *env) compile(arr []any, fn string) *compiled {
@@ -478,6 +542,35 @@ func (e *env) judgeRoot(cp *compiled, ri int) (out []finding) {
 		stable, cp.unstable = false, true
 		add("nondeterministic", "second-run:"+what, outcome(r2), outcome(r1))
 	}
+	// (2b) a plan is a value: one that has already run on other roots must do on
+	// this root what a plan compiled just now from the same array does (nothing a
+	// run learns from its data may be kept in the plan)
+	if stable && cp.runs > 0 {
+		if fp, pv := newPlan(clone(cp.arr).([]any)); pv == nil && fp != nil {
+			rf := e.evalDirect(fp, e.mkRoot(ri), cp.fn)
+			e.cnt["fresh_plan_comparisons"]++
+			if what, same := sameOutcome(rf, r2); !same {
+				stable, cp.unstable = false, true
+				// where does the used plan differ from a new one? Inside a container
+				// literal: the literal was stored into a root by reference and changed
+				// through that root (a listed finding, whatever outcome it leads to).
+				// Anywhere else (a call node, a path, or nothing Simplify() shows): its own cell.
+				where := "nothing-simplify-shows"
+				func() {
+					defer func() { _ = recover() }()
+					if fp2, pv2 := newPlan(clone(cp.arr).([]any)); pv2 == nil && fp2 != nil {
+						where = planDiffPlace(fp2.Simplify(), cp.p.Simplify(), e.fns, false, 0)
+					}
+				}()
+				if where == "literal" {
+					add("plan-changed-by-running", "literal-stored-by-reference", "a plan compiled just now ("+what+"): "+outcome(rf), outcome(r2))
+				} else {
+					add("plan-changed-by-running", "after-other-roots:"+what+"|changed="+where, "a plan compiled just now: "+outcome(rf), outcome(r2))
+				}
+			}
+		}
+	}
+	cp.runs++
 	if r1.raised {
 		e.cnt["raised"]++
 		if strings.HasPrefix(r1.errText, "runtime error:") {
